@@ -575,16 +575,12 @@ fn run_history(
             | (Op::Create { .. }, Reply::Created { handle: Some(_), .. }) => w.handles[..w.handles.len() - 1].to_vec(),
             _ => w.handles.clone(),
         };
-        let sreply = sh.exec(&xop, &reply, &inos_before, &hs_before);
-        let sreply = match (&op, sreply) {
-            (Op::Readlink { .. }, Reply::Data(d)) => Reply::Data(canon::unexpand(&d, dirs.sent.as_bytes())),
-            (_, r) => r,
-        };
-        let mut stop = false;
-        if sreply.value() != reply.value() {
-            // input classes of the file-handle mode that are known deviations get their own key
+        // input classes of the file-handle mode that are known deviations (known_findings.json):
+        // the implementation fails before touching anything, so the request is not replayed on the
+        // shadow tree and the history goes on with both trees still equal
+        let mut class = "";
+        {
             let mut nonroot = false;
-            let mut class = "";
             for e in &trace {
                 if e.name == "setresuid" && e.ret == 0 {
                     nonroot = e.a[1] != 0;
@@ -596,9 +592,24 @@ fn run_history(
                     class = "ifh-open-as-caller";
                 }
             }
-            let key = if class.is_empty() { format!("C05:reply-differs:{}", kind) } else { format!("C05:reply-differs:{}", class) };
-            oracle(out, "C05", key, &case_now, format!("{}: implementation {} / host {}", kind, reply.value(), sreply.value()));
-            stop = !class.is_empty();
+            if reply.errno().is_none() {
+                class = "";
+            }
+        }
+        let mut stop = false;
+        let skip_shadow = !class.is_empty();
+        if skip_shadow {
+            oracle(out, "C05", format!("C05:reply-differs:{}", class), &case_now, format!("{}: implementation {}", kind, reply.value()));
+        } else {
+            let sreply = sh.exec(&xop, &reply, &inos_before, &hs_before);
+            let sreply = match (&op, sreply) {
+                (Op::Readlink { .. }, Reply::Data(d)) => Reply::Data(canon::unexpand(&d, dirs.sent.as_bytes())),
+                (_, r) => r,
+            };
+            if sreply.value() != reply.value() {
+                oracle(out, "C05", format!("C05:reply-differs:{}", kind), &case_now,
+                       format!("{}: implementation {} / host {}", kind, reply.value(), sreply.value()));
+            }
         }
         for n in sh.notes.drain(..) {
             // with file handles no descriptor pins an unlinked inode: the host may reuse its number
@@ -606,7 +617,7 @@ fn run_history(
             oracle(out, "C05", key, &case_now, format!("{}: {}", kind, n));
             stop = true;
         }
-        if is_mutator(&op) && !stop {
+        if is_mutator(&op) && !stop && !skip_shadow {
             let a = tree::snapshot(&dirs.export, &[], false);
             let b = tree::snapshot(&dirs.shadow, &[], false);
             if let Some(d) = tree::diff(&a, &b) {
